@@ -22,9 +22,9 @@ from vlib import core
 from vlib import replay as rp
 
 PROP = "C06"
-INPUT_KEYS = {"k", "l", "x", "y"}
+INPUT_KEYS = {"k", "l", "x", "y", "fl"}
 INVS = ["TypeOK", "DepthBound", "ModBeforeStep", "OneTriggerPerChange", "TruePrevious", "StartFirst", "StopLast",
-        "NothingLeftBehind", "DeadIsFinal", "Emit"]
+        "NothingLeftBehind", "DeadIsFinal", "BigStepAgrees", "Emit"]
 ALL = "{1,2,3,4,5,6,7,8,9,10,11,12,13,14,15,16,17}"
 CMD_KINDS = {"cmd", "set", "upd", "rem", "clr", "take", "drop"}
 MAX_REPORT = 8
